@@ -82,7 +82,9 @@ Record fstate := mkF {
   f_drain : dstate;
   f_stopped : bool;
   f_now : N;                 (* virtual clock, ns *)
-  f_builds : list (N * N)    (* per slot: number of workers built so far *)
+  f_builds : list (N * N);   (* per slot: number of workers built so far *)
+  f_discard : option (N * dmode)   (* discard_settings now in force (UpdateSettings can change them);
+                                      the workers' copies are replaced together with it *)
 }.
 
 (* ---------- small helpers ---------- *)
@@ -319,21 +321,23 @@ Definition on_change (c : fcfg) (rs : rstate) (i : N) (available : bool) : rstat
 Inductive rresult := Handled | Backlog | Limited.
 
 Definition set_pool (s : fstate) (p : list worker) : fstate :=
-  mkF p (f_size s) (f_q s) (f_rs s) (f_bucket s) (f_drain s) (f_stopped s) (f_now s) (f_builds s).
+  mkF p (f_size s) (f_q s) (f_rs s) (f_bucket s) (f_drain s) (f_stopped s) (f_now s) (f_builds s) (f_discard s).
 Definition set_rs (s : fstate) (r : rstate) : fstate :=
-  mkF (f_pool s) (f_size s) (f_q s) r (f_bucket s) (f_drain s) (f_stopped s) (f_now s) (f_builds s).
+  mkF (f_pool s) (f_size s) (f_q s) r (f_bucket s) (f_drain s) (f_stopped s) (f_now s) (f_builds s) (f_discard s).
 Definition set_fq (s : fstate) (q : list job) : fstate :=
-  mkF (f_pool s) (f_size s) q (f_rs s) (f_bucket s) (f_drain s) (f_stopped s) (f_now s) (f_builds s).
+  mkF (f_pool s) (f_size s) q (f_rs s) (f_bucket s) (f_drain s) (f_stopped s) (f_now s) (f_builds s) (f_discard s).
 Definition set_bucket (s : fstate) (b : option bucket) : fstate :=
-  mkF (f_pool s) (f_size s) (f_q s) (f_rs s) b (f_drain s) (f_stopped s) (f_now s) (f_builds s).
+  mkF (f_pool s) (f_size s) (f_q s) (f_rs s) b (f_drain s) (f_stopped s) (f_now s) (f_builds s) (f_discard s).
 Definition set_size (s : fstate) (n : N) : fstate :=
-  mkF (f_pool s) n (f_q s) (f_rs s) (f_bucket s) (f_drain s) (f_stopped s) (f_now s) (f_builds s).
+  mkF (f_pool s) n (f_q s) (f_rs s) (f_bucket s) (f_drain s) (f_stopped s) (f_now s) (f_builds s) (f_discard s).
 Definition set_dstate (s : fstate) (d : dstate) : fstate :=
-  mkF (f_pool s) (f_size s) (f_q s) (f_rs s) (f_bucket s) d (f_stopped s) (f_now s) (f_builds s).
+  mkF (f_pool s) (f_size s) (f_q s) (f_rs s) (f_bucket s) d (f_stopped s) (f_now s) (f_builds s) (f_discard s).
 Definition set_now (s : fstate) (t : N) : fstate :=
-  mkF (f_pool s) (f_size s) (f_q s) (f_rs s) (f_bucket s) (f_drain s) (f_stopped s) t (f_builds s).
+  mkF (f_pool s) (f_size s) (f_q s) (f_rs s) (f_bucket s) (f_drain s) (f_stopped s) t (f_builds s) (f_discard s).
 Definition set_builds (s : fstate) (b : list (N * N)) : fstate :=
-  mkF (f_pool s) (f_size s) (f_q s) (f_rs s) (f_bucket s) (f_drain s) (f_stopped s) (f_now s) b.
+  mkF (f_pool s) (f_size s) (f_q s) (f_rs s) (f_bucket s) (f_drain s) (f_stopped s) (f_now s) b (f_discard s).
+Definition set_discard (s : fstate) (d : option (N * dmode)) : fstate :=
+  mkF (f_pool s) (f_size s) (f_q s) (f_rs s) (f_bucket s) (f_drain s) (f_stopped s) (f_now s) (f_builds s) d.
 
 (* the inner router's route_message *)
 Definition route_inner (c : fcfg) (s : fstate) (j : job) (hint : option N) : fstate * rresult * list ev :=
@@ -562,7 +566,7 @@ Definition resize (c : fcfg) (s : fstate) (requested : N) : fstate * list ev :=
 Definition all_available (p : list worker) : bool := forallb w_available p.
 
 Definition stop_factory (s : fstate) : fstate * list ev :=
-  (mkF [] (f_size s) [] (f_rs s) (f_bucket s) (f_drain s) true (f_now s) (f_builds s),
+  (mkF [] (f_size s) [] (f_rs s) (f_bucket s) (f_drain s) true (f_now s) (f_builds s) (f_discard s),
    map (fun j => EDiscard (jid j) Shutdown) (f_q s ++ flat_map w_q (f_pool s))
    ++ [EHook HStopped; EStopped]).
 
@@ -610,7 +614,8 @@ Inductive fop :=
 | FSettle               (* quiescence barrier (costs settle_ns of virtual time) *)
 | FQuery                (* GetQueueDepth, GetAvailableCapacity, GetNumActiveWorkers + live workers *)
 | FStopW (w : N)        (* user code stops the idle actor of slot w; its post_stop is slow *)
-| FOpenStop (w : N).    (* that actor finishes stopping: the factory gets the supervision event *)
+| FOpenStop (w : N)     (* that actor finishes stopping: the factory gets the supervision event *)
+| FUpdate (d : option (N * dmode)).   (* UpdateSettings { discard_settings: None | Static/Dynamic { limit, mode } } *)
 
 (* a message handled by the running factory, followed by the is_drained check *)
 Definition with_after (r : fstate * list ev) : fstate * list ev :=
@@ -648,8 +653,13 @@ Fixpoint finish_list (c : fcfg) (s : fstate) (l : list (N * N)) : fstate * list 
                     let (s2, e') := finish_list c s1 r in (s2, e ++ e')
   end.
 
-Definition step (c : fcfg) (s : fstate) (o : fop) : fstate * list ev :=
+(* one label, under the discard settings `c_discard c` *)
+Definition step0 (c : fcfg) (s : fstate) (o : fop) : fstate * list ev :=
   match o with
+  | FUpdate d =>
+    (* update_settings: the factory's settings and every existing worker's copy are replaced;
+       nothing is shed at this moment (no retroactive shedding) *)
+    if f_stopped s then (s, []) else with_after (set_discard s d, [])
   | FAdv dt => (set_now s (f_now s + dt), [])
   | FSettle => (set_now s (f_now s + settle_ns), [])
   | FDispatch j => if f_stopped s then (s, [EDropped (jid j)]) else with_after (dispatch c s j)
@@ -688,11 +698,21 @@ Definition step (c : fcfg) (s : fstate) (o : fop) : fstate * list ev :=
       else (s1, [EQuery d (Some (q_avail c s1)) (Some (q_active s1)) (live s1)])
   end.
 
+(* The discard settings are part of the state (f_discard): a label is handled under the settings
+   in force when it is processed.  The workers' copies (WorkerDiscardSettings) are not a separate
+   field: update_settings replaces all of them together with the factory's, and new workers take
+   the factory's current settings, so they always agree with f_discard. *)
+Definition with_discard (c : fcfg) (d : option (N * dmode)) : fcfg :=
+  mkFcfg (c_router c) (c_queue c) d (c_rate c) (c_n0 c) (c_hash c).
+Definition cfg_now (c : fcfg) (s : fstate) : fcfg := with_discard c (f_discard s).
+
+Definition step (c : fcfg) (s : fstate) (o : fop) : fstate * list ev := step0 (cfg_now c s) s o.
+
 (* pre_start + post_start *)
 Definition init (c : fcfg) (t0 : N) : fstate * list ev :=
   let s0 := mkF [] 0 [] (mkR [] [] 0)
                 (match c_rate c with Some (rc, i) => Some (new rc i t0) | None => None end)
-                NotDraining false t0 [] in
+                NotDraining false t0 [] (c_discard c) in
   (set_size (grow c s0 0 (N.to_nat (c_n0 c))) (c_n0 c), [EHook HStarted]).
 
 Fixpoint run_from (c : fcfg) (s : fstate) (ops : list fop) : list (list ev) :=
@@ -803,39 +823,70 @@ Definition all_terminal (jobs : list job) (pre : list ev) : bool :=
 
 Definition ck_discard_once (ws : list window) : bool := nodup_b (discard_ids (evs_of ws)).
 
-Fixpoint qb_scan (c : fcfg) (L : N) (jobs : list job) (slots : list N) (pre : list ev)
-                 (ws : list window) : bool :=
+(* the settings an UpdateSettings label of this window installs (the last one, if several) *)
+Fixpoint last_update (ops : list fop) (acc : option (option (N * dmode))) : option (option (N * dmode)) :=
+  match ops with
+  | [] => acc
+  | FUpdate d :: r => last_update r (Some d)
+  | _ :: r => last_update r acc
+  end.
+
+(* Runtime updates: `cur` = settings in force, `base` = everything observed up to the window of
+   the last update.  ractor does not shed retroactively, so a lowered limit may find more than L
+   jobs waiting; what the new limit governs is what arrives afterwards: among the jobs ACCEPTED
+   AFTER the update at most L are ever waiting in one queue (Newest: each was accepted into a
+   queue shorter than L; Oldest: the queue is cut to L at every arrival).  Windows that contain
+   an update are not judged. *)
+Fixpoint qb_scan (c : fcfg) (cur : option (N * dmode)) (base : list ev) (jobs : list job)
+                 (slots : list N) (pre : list ev) (ws : list window) : bool :=
   match ws with
   | [] => true
   | w :: r =>
     let pre' := pre ++ snd w in
     let post := evs_of r in
-    let waiting := filter (discardable c) (waiting_now c jobs pre') in
-    (if factory_queueing c then
-       len (filter (fun j => existsb (is_start (jid j)) post || existsb (is_discard (jid j)) post) waiting) <=? L
-     else if 0 <? c_n0 c then
-       forallb (fun x => len (filter (fun j => existsb (is_start_on (jid j) x) post) waiting) <=? L) slots
-     else true)
-    && qb_scan c L jobs slots pre' r
+    match last_update (fst w) None with
+    | Some d => qb_scan c d pre' jobs slots pre' r
+    | None =>
+      (match cur with
+       | None => true
+       | Some (L, _) =>
+         let waiting := filter (fun j => discardable c j && negb (existsb (is_accept (jid j)) base))
+                               (waiting_now c jobs pre') in
+         if factory_queueing c then
+           len (filter (fun j => existsb (is_start (jid j)) post || existsb (is_discard (jid j)) post) waiting) <=? L
+         else if 0 <? c_n0 c then
+           forallb (fun x => len (filter (fun j => existsb (is_start_on (jid j) x) post) waiting) <=? L) slots
+         else true
+       end)
+      && qb_scan c cur base jobs slots pre' r
+    end
   end.
 
 (* StickyQueuerRouting is factory-queueing, but a job whose key is being processed waits in that
    worker's own queue, to which (by design, see FactoryArguments::discard_settings) the limit does
    not apply; from outside the two kinds of waiting jobs cannot be told apart, so for this router
    the clause uses what the factory itself reports: GetQueueDepth <= L whenever every job is
-   discardable (default queue) *)
-Definition ck_queue_bound (c : fcfg) (ws : list window) : bool :=
-  match c_discard c with
-  | None => true
-  | Some (L, _) =>
-    match c_router c with
-    | RSticky =>
-      forallb (fun e => match e with
-                        | EQuery (Some d) _ _ _ => match c_queue c with QDefault => d <=? L | QPrio => true end
-                        | _ => true
-                        end) (evs_of ws)
-    | _ => qb_scan c L (jobs_of (ops_of ws)) (dedup (start_slots (evs_of ws))) [] ws
+   discardable (default queue), as long as no runtime update has happened *)
+Fixpoint sticky_scan (c : fcfg) (cur : option (N * dmode)) (ws : list window) : bool :=
+  match ws with
+  | [] => true
+  | w :: r =>
+    match last_update (fst w) None with
+    | Some _ => true
+    | None =>
+      forallb (fun e => match e, cur with
+                        | EQuery (Some d) _ _ _, Some (L, _) =>
+                          match c_queue c with QDefault => d <=? L | QPrio => true end
+                        | _, _ => true
+                        end) (snd w)
+      && sticky_scan c cur r
     end
+  end.
+
+Definition ck_queue_bound (c : fcfg) (ws : list window) : bool :=
+  match c_router c with
+  | RSticky => sticky_scan c (c_discard c) ws
+  | _ => qb_scan c (c_discard c) [] (jobs_of (ops_of ws)) (dedup (start_slots (evs_of ws))) [] ws
   end.
 
 Fixpoint pos_of (id : N) (jobs : list job) : N :=
@@ -848,37 +899,47 @@ Definition shed_before (c : fcfg) (jobs : list job) (x j : job) : bool :=
   (eff_prio (c_queue c) j <? eff_prio (c_queue c) x)
   || ((eff_prio (c_queue c) j =? eff_prio (c_queue c) x) && (pos_of (jid x) jobs <? pos_of (jid j) jobs)).
 
-Fixpoint si_scan (c : fcfg) (jobs : list job) (pre : list ev) (ws : list window) : bool :=
+(* which job is shed, judged window by window under the mode in force (windows containing an
+   update are not judged) *)
+Fixpoint si_scan (c : fcfg) (cur : option (N * dmode)) (all : list ev) (jobs : list job)
+                 (pre : list ev) (ws : list window) : bool :=
   match ws with
   | [] => true
   | w :: r =>
     let pre' := pre ++ snd w in
     let post := evs_of r in
-    let still := filter (fun j => existsb (is_start (jid j)) post || existsb (is_discard (jid j)) post)
-                        (waiting_now c jobs pre') in
-    (if Nat.eqb (count_dispatch (fst w)) 1 then
-       forallb (fun id => match job_of id jobs with
-                          | Some x => forallb (shed_before c jobs x) still
-                          | None => true
-                          end) (shed_ids (snd w))
-     else true)
-    && si_scan c jobs pre' r
+    match last_update (fst w) None with
+    | Some d => si_scan c d all jobs pre' r
+    | None =>
+      (match cur with
+       | None => true
+       | Some (_, Newest) =>
+         (* with a worker-queueing router and an initially empty pool, accepted jobs backlogged in
+            the factory queue are later moved to a worker's queue, where each is the newest
+            arrival and may be shed: only then can a shed job have been accepted before *)
+         if factory_queueing c || (0 <? c_n0 c)
+         then forallb (fun id => negb (existsb (is_accept id) all)) (shed_ids (snd w)) else true
+       | Some (_, Oldest) =>
+         forallb (fun id => existsb (is_accept id) all) (shed_ids (snd w))
+         && (match c_router c with
+             | RQueuer =>
+               if Nat.eqb (count_dispatch (fst w)) 1 then
+                 let still := filter (fun j => existsb (is_start (jid j)) post || existsb (is_discard (jid j)) post)
+                                     (waiting_now c jobs pre') in
+                 forallb (fun id => match job_of id jobs with
+                                    | Some x => forallb (shed_before c jobs x) still
+                                    | None => true
+                                    end) (shed_ids (snd w))
+               else true
+             | _ => true
+             end)
+       end)
+      && si_scan c cur all jobs pre' r
+    end
   end.
 
 Definition ck_shed_identity (c : fcfg) (ws : list window) : bool :=
-  let evs := evs_of ws in
-  match c_discard c with
-  | None => true
-  | Some (_, Newest) =>
-    (* with a worker-queueing router and an initially empty pool, accepted jobs backlogged in the
-       factory queue are later moved to a worker's queue, where each is the newest arrival and
-       may be shed: only then can a shed job have been accepted before *)
-    if factory_queueing c || (0 <? c_n0 c)
-    then forallb (fun id => negb (existsb (is_accept id) evs)) (shed_ids evs) else true
-  | Some (_, Oldest) =>
-    forallb (fun id => existsb (is_accept id) evs) (shed_ids evs)
-    && (match c_router c with RQueuer => si_scan c (jobs_of (ops_of ws)) [] ws | _ => true end)
-  end.
+  si_scan c (c_discard c) (evs_of ws) (jobs_of (ops_of ws)) [] ws.
 
 Definition ck_reject_reported (c : fcfg) (ws : list window) : bool :=
   let evs := evs_of ws in
@@ -889,7 +950,9 @@ Definition ck_reject_reported (c : fcfg) (ws : list window) : bool :=
       | None => false
       | Some r =>
         if mem (jid j) after then reason_eqb r Shutdown
-        else (reason_eqb r Loadshed && match c_discard c with Some _ => true | None => false end)
+        else (reason_eqb r Loadshed
+              && (match c_discard c with Some _ => true | None => false end
+                  || existsb (fun o => match o with FUpdate (Some _) => true | _ => false end) (ops_of ws)))
              || (reason_eqb r RateLimited && match c_rate c with Some _ => true | None => false end)
       end
     else true) (jobs_of (ops_of ws)).
